@@ -426,7 +426,7 @@ def gen_auth_case(rng):
             hdr = hdr + ','; tag.append('trailing-comma')
         elif m2 < 0.18:
             hdr = hdr.split(' ', 1)[0] + ' '; tag.append('empty')
-        elif m2 < 0.21:
+        elif m2 < 0.27:
             r_ = digest_expected(user, crealm, secret, cmethod, kw['uri'], kw['nonce'])
             if r_:
                 hdr = hdr.replace(r_, r_.upper()); tag.append('upper-response')
@@ -450,6 +450,13 @@ def auth_table():
             hdr = digest_header(user, crealm, secret, cmethod, qop='auth')
         out.append({'k': 'auth', 'fn': fn, 'enc': 0 if fn == 'digest' else 1, 'ukind': 'dict', 'users': users,
                     'realm': 'R', 'method': 'GET', 'hdr': hdr, 'tag': 'table'})
+    # near misses of a right response
+    good = digest_expected('admin', 'R', 'pw', 'GET', '/', 'n0')
+    for fn in ('basic', 'digest'):
+        for resp in (good.upper(), good[:-1], good + '0', ' ' + good, good.replace('a', 'A', 1), ''):
+            out.append({'k': 'auth', 'fn': fn, 'enc': 0 if fn == 'digest' else 1, 'ukind': 'dict', 'users': users,
+                        'realm': 'R', 'method': 'GET', 'hdr': digest_header('admin', 'R', 'pw', 'GET', response=resp),
+                        'tag': 'table-nearmiss'})
     # Digest parameter validation: every subset of the required fields, qop/nc/cnonce combinations
     req = ['username', 'realm', 'nonce', 'uri', 'response']
     for k in range(len(req) + 1):
@@ -463,6 +470,40 @@ def auth_table():
             out.append({'k': 'auth', 'fn': fn, 'enc': 0 if fn == 'digest' else 1, 'ukind': 'dict', 'users': users,
                         'realm': 'R', 'method': 'GET',
                         'hdr': digest_header('admin', 'R', 'pw', 'GET', qop='auth', drop=drop), 'tag': 'table-qop'})
+    return out
+
+
+def auth_table_big():
+    """thorough tier: the Digest decision table with qop / algorithm variants and more secrets"""
+    out = []
+    users = [['admin', 'pw'], ['bob', 'None'], ['eve', '']]
+    for fn, user, secret, crealm, cmethod, qop, alg in itertools.product(
+            ['basic', 'digest', 'check'], ['admin', 'bob', 'eve', 'mallory'], ['pw', 'None', 'x', ''], ['R', 'S'],
+            ['GET', 'POST'], [None, 'auth', 'auth-int'], [None, 'MD5-sess', 'SHA1']):
+        out.append({'k': 'auth', 'fn': fn, 'enc': 0 if fn == 'digest' else 1, 'ukind': 'dict', 'users': users,
+                    'realm': 'R', 'method': 'GET', 'tag': 'table-big',
+                    'hdr': digest_header(user, crealm, secret, cmethod, qop=qop, alg=alg)})
+    for fn, enc, user, secret in itertools.product(['basic', 'check', 'digest'], [0, 1, 2, 3],
+                                                   ['admin', 'bob', 'eve', 'mallory'], ['pw', 'None', 'x', '', 'p']):
+        tab = [[u, enc_apply(enc, p, u) if enc in (2, 3) else p] for u, p in users]
+        out.append({'k': 'auth', 'fn': fn, 'enc': 0 if fn == 'digest' else enc, 'ukind': 'cfun', 'users': tab, 'realm': 'R',
+                    'method': 'GET', 'tag': 'table-big', 'hdr': 'Basic ' + b64s('%s:%s' % (user, secret))})
+    return out
+
+
+def sess_table_big():
+    """thorough tier: owner writes, a second client tries every cookie variant (and may write), owner returns"""
+    out = []
+    u0, u1, u2 = 'a' * 8, 'b' * 8, 'c' * 8
+    first = {'cookie': None, 'ip': '10.0.0.1', 'agent': 'UA', 'act': ['w', 7], 'uuid': u0}
+    sid = u0 + '/' + fp('10.0.0.1', 'UA')
+    back = {'cookie': sid, 'ip': '10.0.0.1', 'agent': 'UA', 'act': ['r'], 'uuid': u2}
+    for ip, agent, act in itertools.product(['10.0.0.1', '10.0.0.2', '10.0.0.12'], ['UA', 'UB', '2UA', None],
+                                            [['r'], ['w', 3], ['x']]):
+        for cookie in [sid, None, u0, u0 + '/' + fp(ip, agent), 'zz/' + fp(ip, agent), sid + '/' + fp(ip, agent), '',
+                       sid[:-1], '/' + fp('10.0.0.1', 'UA')]:
+            out.append({'k': 'sess', 'reqs': [first, {'cookie': cookie, 'ip': ip, 'agent': agent, 'act': act, 'uuid': u1},
+                                              back]})
     return out
 
 
@@ -539,7 +580,7 @@ def vhost_table():
     for tg, ip, xfh, host in itertools.product(
             [None, [], ['10.0.0.1'], ['10.0.0.1', '10.0.0.2']], ['10.0.0.1', '10.0.0.2', '10.0.0.3'],
             [None, '', 'b.example', ' B.Example , a.example', 'nowhere.example', ',b.example'],
-            ['a.example', 'b.example:8080', 'nowhere.example', None]):
+            ['a.example', 'b.example:8080', None]):
         out.append({'k': 'vhost', 'domains': DOMAINS, 'tg': tg, 'tgtype': 'list', 'ip': ip, 'host': host, 'xfh': xfh,
                     'path': '/x/y'})
     return out
@@ -559,9 +600,21 @@ def gen_vhost_case(rng):
 # ------------------------------------------------------------------ Coq literals
 
 def cstr(s):
-    if s and all(32 <= ord(ch) <= 126 for ch in s):
-        return '(s2l "%s"%%string)' % s.replace('"', '""')
-    return nlist(s)
+    """Coq term of type list N for a python str: printable-ASCII runs as compact string literals"""
+    if not s:
+        return '[]%N'
+    parts, run = [], ''
+    for ch in s:
+        if 32 <= ord(ch) <= 126:
+            run += ch
+            continue
+        if run:
+            parts.append('s2l "%s"%%string' % run.replace('"', '""'))
+            run = ''
+        parts.append('[%d]%%N' % ord(ch))
+    if run:
+        parts.append('s2l "%s"%%string' % run.replace('"', '""'))
+    return '(%s)' % ' ++ '.join(parts)
 
 
 def copt(v, f):
@@ -576,8 +629,8 @@ class C20(Prop):
     id = 'C20'
     props_file = 'Props/C20.v'
     imports = ['Model.Auth', 'Model.AuthObs', 'Model.Session', 'Model.SessionObs', 'Model.VHost', 'Model.VHostObs']
-    quick_n = 650
-    thorough_n = 12000
+    quick_n = 400
+    thorough_n = 5000
     rule = ('auth: user tables (0-3 users, dict / callable) x realm x method x Authorization values from a grammar of both '
             'schemes (right / wrong / "None" / derived secrets, users absent from the table, dropped / extra / duplicated '
             'digest fields, qop and algorithm variants, bad base64, no colon, bad utf-8, no space, unknown scheme) through '
@@ -602,6 +655,8 @@ class C20(Prop):
     # ---- cases
     def generate(self, rng, n, tier):
         cases = auth_table() + e2e_table() + sess_table() + vhost_table()
+        if tier == 'thorough':
+            cases += auth_table_big() + sess_table_big()
         for i in range(n):
             r = rng.random()
             if r < 0.05:
@@ -736,8 +791,10 @@ class C20(Prop):
                     raw = base64.decodebytes(rest.encode('utf-8'))
                 except Exception:
                     raw = None
-                b64t.append('(%s, %s)' % (cstr(rest), copt(raw, lambda b: nlist(list(b)))))
-                if raw is not None and b':' in raw:
+                scheme = hdr.split(' ', 1)[0].lower()
+                if scheme == 'basic':
+                    b64t.append('(%s, %s)' % (cstr(rest), copt(raw, lambda b: nlist(list(b)))))
+                if scheme == 'basic' and raw is not None and b':' in raw:
                     for part in set(raw.split(b':', 1)):
                         try:
                             d = part.decode('utf-8')
@@ -749,7 +806,8 @@ class C20(Prop):
                     kv = list(d.items())
                 except Exception:
                     kv = None
-                keqvt.append('(%s, %s)' % (cstr(rest), copt(kv, cpairs)))
+                if scheme == 'digest':
+                    keqvt.append('(%s, %s)' % (cstr(rest), copt(kv, cpairs)))
             md5t = list(obs.get('md5', [])) if isinstance(obs, dict) else []
             if c['enc'] == 2 and hdr is not None:      # the configured encrypt hashes the presented password
                 md5t = md5t + [[p, md5hex(p)] for p in self._basic_passwords(hdr)]
